@@ -32,7 +32,11 @@ claim('C11', 'local taint to allocation sinks + arithmetic-assert discharge with
       'Partial: container-derived counts never size an allocation (29 sinks); every decode-side arithmetic site with a container-derived or fixed-width operand is discharged by width/guard or reviewed; every decode-side recursion cycle has a depth bound; apply path is decode -> validate -> metadata -> apply on success edges; container-derived indexes are length-checked on the dominating path; reader primitives bounds-check and every read goes through them. Not decided: byte-exact round trip, that validated containers are semantically safe, opcode operand width agreement (planned for the thorough tier).',
       _TB, 'DESIGN.md section 4 / C11')
 
+claim('C20', 'lock-region ordering by dominance + loop SCC analysis on the stop/pause flags + condvar protocol rules + sibling call-set comparison',
+      'Partial: copy-in -> cycle -> copy-back inside one SharedGlobals::with_lock closure (order and exactly-once by dominance/must-pass), shared map reachable only through the lock; cycle site behind paused == false; every repeating path re-tests the stop flag; stop branch saves once, marks Stopped, leaves; every thread exit marks Stopped/Faulted; wait-in-loop, (lock, write, notify_all) wakers and no waiter consuming the broadcast flag; the two sibling loops make the same calls. Fairness and lost wake-ups under arbitrary OS schedules are not decided.',
+      _TB, 'DESIGN.md section 4 / C20')
+
 _PENDING = 'check not built yet in this commit (work in progress; see DESIGN.md section 10 for the build order)'
-for _p in ['C02','C03','C04','C05','C06','C09','C12','C13','C14','C16','C17','C20']:
+for _p in ['C02','C03','C04','C05','C06','C09','C12','C13','C14','C16','C17']:
     na(_p, _PENDING)
 na('C15', 'formatting token-sequence preservation and idempotence are equalities between values computed by string manipulation; no shape-of-code fact is a necessary condition that a realistic breaking edit would violate (DESIGN.md section 5)')
